@@ -181,7 +181,15 @@ func render(f File, layout int) string {
 		for _, p := range m.Params {
 			s := p.Type + " " + p.Name
 			if p.Body {
-				s = "@RequestBody " + s
+				// the body parameter may carry further annotations, before or after @RequestBody
+				switch r.Intn(4) {
+				case 0:
+					s = "@RequestBody @Valid " + s
+				case 1:
+					s = "@Valid @RequestBody " + s
+				default:
+					s = "@RequestBody " + s
+				}
 			} else if m.Kind == "handler" && r.Intn(3) == 0 {
 				s = "@PathVariable(\"" + p.Name + "\") " + s
 			}
